@@ -172,6 +172,48 @@ class Repo(object):
         refdir = os.path.join(VERIF, "reference", PKG)
         ref = alpha.load_reference(refdir)
         self.ref_trees = ref
+        # The normalised view only depends on the sources read and on the engine: it is cached by content digest (an
+        # optimisation for the self-test / benign corpus, which run 20 checks on one tree; a miss recomputes).
+        cache_file = None
+        changed = [n for n, m in self.modules.items() if n in ref and ast.dump(m.tree) != ast.dump(ref[n])]
+        if changed and not os.environ.get("VERIF_NO_CACHE"):
+            try:
+                import pickle
+                h = hashlib.sha256()
+                for n in sorted(self.modules):
+                    h.update(n.encode())
+                    h.update(open(self.modules[n].path, "rb").read())
+                for fn_ in sorted(os.listdir(refdir)):
+                    if fn_.endswith(".py"):
+                        h.update(open(os.path.join(refdir, fn_), "rb").read())
+                for eng in ("core.py", "alpha.py", "equiv.py", "webs.py", "inline.py", "ratfun.py"):
+                    h.update(open(os.path.join(VERIF, "sa", eng), "rb").read())
+                cdir = os.environ.get("VERIF_CACHE", "/var/tmp/verif-cache")
+                os.makedirs(cdir, exist_ok=True)
+                cache_file = os.path.join(cdir, h.hexdigest()[:32] + ".pickle")
+                if os.path.exists(cache_file):
+                    with open(cache_file, "rb") as fh:
+                        data = pickle.load(fh)
+                    for n, t in data["trees"].items():
+                        self.modules[n].tree = t
+                    self.inlined, self.adopted, self.renamed, self.segments = data["meta"]
+                    return
+            except Exception:
+                cache_file = None
+        self._normalise(ref, alpha, equiv)
+        if cache_file is not None:
+            try:
+                import pickle
+                tmp = cache_file + ".%d" % os.getpid()
+                with open(tmp, "wb") as fh:
+                    pickle.dump({"trees": {n: self.modules[n].tree for n in changed},
+                                 "meta": (self.inlined, self.adopted, self.renamed, self.segments)}, fh, protocol=4)
+                os.replace(tmp, cache_file)
+            except Exception:
+                pass
+
+    def _normalise(self, ref, alpha, equiv):
+        refdir = os.path.join(VERIF, "reference", PKG)
         hier_cur = equiv.class_hierarchy([m.tree for m in self.modules.values()])
         hier_ref = equiv.class_hierarchy(list(ref.values()))
         from . import inline
